@@ -253,12 +253,14 @@ Definition write_info_field (key : list N) (ov : option value) : option (list N)
   | None => Some (key ++ 61 :: dot)
   end.
 
-(* io/writer/record/samples/sample.rs::write_sample: values joined by ':' (no values -> "") *)
+(* io/writer/record/samples/sample.rs::write_sample: values joined by ':'; a sample without values
+   is written as the missing value "." *)
 Definition write_sample (v44 : bool) (vs : list (option value)) : option (list N) :=
   match sequence (map (fun o => match o with
                                 | None => Some dot
                                 | Some v => write_value CFormat v44 v
                                 end) vs) with
+  | Some [] => Some dot
   | Some ps => Some (join 58 ps)
   | None => None
   end.
@@ -266,11 +268,10 @@ Definition write_sample (v44 : bool) (vs : list (option value)) : option (list N
 (* parse_value of io/reader/record_buf/info/field/value.rs and
    io/reader/record_buf/samples/values/value.rs (lazy = false), and of
    record/info/field/value.rs, record/samples/series/value.rs with the array iterators of
-   variant/record/.../array/values.rs forced (lazy = true).  The eager readers do NOT
-   percent-decode Characters; the lazy ones do.  The lazy array iterators yield nothing for
+   variant/record/.../array/values.rs forced (lazy = true).  Both readers percent-decode a
+   Character and then require exactly one character.  The lazy array iterators yield nothing for
    an empty text. *)
-Definition parse_char (lazy : bool) (s : list N) : option N :=
-  if lazy then parse_char_raw (pct_dec s) else parse_char_raw s.
+Definition parse_char (s : list N) : option N := parse_char_raw (pct_dec s).
 
 Definition parse_arr {A} (lazy : bool) (f : list N -> option A) (s : list N)
   : option (list (option A)) :=
@@ -288,14 +289,14 @@ Definition parse_value (lazy : bool) (num : vnumber) (ty : vtype) (s : list N) :
       match ty with
       | TInteger => option_map VInteger (parse_i32 s)
       | TFloat => option_map VFloat (prs_float s)
-      | TCharacter => option_map VCharacter (parse_char lazy s)
+      | TCharacter => option_map VCharacter (parse_char s)
       | _ => Some (VString (pct_dec s))
       end
     else
       match ty with
       | TInteger => option_map VIntArr (parse_arr lazy parse_i32 s)
       | TFloat => option_map VFloatArr (parse_arr lazy prs_float s)
-      | TCharacter => option_map VCharArr (parse_arr lazy (parse_char lazy) s)
+      | TCharacter => option_map VCharArr (parse_arr lazy parse_char s)
       | _ => option_map VStrArr (parse_arr lazy (fun t => Some (pct_dec t)) s)
       end
   end.
